@@ -88,6 +88,9 @@ HEADER = 'Require Import V.Lib.PyStr V.Dsl.Model.\nOpen Scope string_scope.\nOpe
 SPEC_HEADER = 'Require Import V.Lib.PyStr V.Dsl.Model V.Dsl.Spec.\nOpen Scope string_scope.\nOpen Scope list_scope.'
 LOAD_HEADER = 'Require Import V.Lib.PyStr V.Dsl.Model V.Dsl.Load.\nOpen Scope string_scope.\nOpen Scope list_scope.'
 
+OUT_HEADER = ('Require Import V.Lib.PyStr V.Dsl.Model V.Dsl.Load V.Dsl.Outputs.\nOpen Scope string_scope.\n'
+              'Open Scope list_scope.')
+
 METHODS = ['ref', 'output', 'copy', 'link']
 
 
@@ -668,6 +671,11 @@ def c_impl(impl):
     if impl['kind'] == 'dsl':
         return '(IErr %s)' % clist(impl['locs'], c_loc)
     return '(IExc %s)' % cstr(impl['type'])
+
+
+def c_kouts(outs):
+    """the key outputs as a term of type list kout of coq/Dsl/Outputs.v"""
+    return clist(outs, lambda o: '(%s, (%s, %s))' % (cstr(o[0]), clist(o[1][1], cstr), cstr(o[1][2])))
 
 
 def c_lw_impl(impl):
@@ -1548,6 +1556,7 @@ def _explore(ctx, cases):
     terms, sterms, kept, s_kept = [], [], [], []
     ov_terms, ov_kept, ld_terms, ld_kept, gl_terms, gl_kept = [], [], [], [], [], []
     lw_terms, lw_kept = [], []
+    out_terms, out_kept, lwo_terms, lwo_kept = [], [], [], []
     for case in cases:
         label, ns = case[0], case[1]
         mode = case[2] if len(case) > 2 else None
@@ -1611,11 +1620,27 @@ def _explore(ctx, cases):
             ctx.fail({'label': label, 'ns': ns, 'mode': mode, 'doc': doc, 'impl': impl}, why, classes)
             if classes:
                 continue    # the loader's answer is the finding; the compiler itself is compared on the direct cases
+        outs = ns.get('outputs') or []
+        if lw and outs:
+            lwo_terms.append('(Some %s, %s, %s, %s)' % (c_ns(ns), copt(ns.get('override'), c_args), c_kouts(outs), c_lw_impl(impl)))
+            lwo_kept.append((label, ns, doc, impl, mode))
+            continue
         if lw:
             lw_terms.append('(Some %s, %s, %s)' % (c_ns(ns), copt(ns.get('override'), c_args), c_lw_impl(impl)))
             lw_kept.append((label, ns, doc, impl, mode))
             continue
-        if mode is None and ns.get('override') is None:
+        if outs:
+            # key outputs: the compiler model with the key-output block (coq/Dsl/Outputs.v compile_out) on the effective
+            # namespace, whatever the entry point; the specification of the COMPONENTS is tied on the namespace without them
+            out_terms.append('(Some %s, @None (list (string * value)), %s, %s, %s)' % (
+                c_ns(eff), c_kouts(outs), c_impl(impl), clist(impl.get('outputs', []), lambda o: cpair(cstr(o[0]), cstr(o[1])))))
+            out_kept.append((label, ns, doc, impl, mode))
+            eff = dict(eff, outputs=[])
+            try:
+                want = spec(eff)
+            except Invalid:
+                want = None
+        elif mode is None and ns.get('override') is None:
             terms.append(cpair(c_ns(ns), c_impl(impl)))
             kept.append((label, ns, doc, impl))
         elif mode is None:
@@ -1648,6 +1673,16 @@ def _explore(ctx, cases):
             continue
         bad = ctx.model_mismatches(LOAD_HEADER, tms, fn, chunk=40, name=nm)
         for i in bad:
+            label, ns, doc, impl, mode = kp[i]
+            ctx.disagree({'label': label, 'ns': ns, 'mode': mode, 'doc': doc}, impl, tms[i][-1200:], what)
+    for tms, kp, fn, nm, what in (
+            (out_terms, out_kept, 'check_out', 'outputs',
+             'compile_out (coq/Dsl/Outputs.v) = namespace_to_flowir on a namespace with key outputs: components, compiled data-in of every output, error locations'),
+            (lwo_terms, lwo_kept, 'check_lw_out', 'lwoutputs',
+             'lightweight_out (coq/Dsl/Outputs.v) = lightweight_validate on a namespace with key outputs')):
+        if not tms:
+            continue
+        for i in ctx.model_mismatches(OUT_HEADER, tms, fn, chunk=40, name=nm):
             label, ns, doc, impl, mode = kp[i]
             ctx.disagree({'label': label, 'ns': ns, 'mode': mode, 'doc': doc}, impl, tms[i][-1200:], what)
     # the Coq specification spec_ns (coq/Dsl/Spec.v, the object of the refinement theorems) is tied twice: it must
